@@ -602,6 +602,14 @@ func (bs *blockState) applySpec(c *Contract, display string, args []Val, rts []t
 	}
 	if c.Kind == "lib" {
 		ex.trusted["library contract assumed (spec/50_lib.spec): "+display] = true
+		if strings.HasSuffix(display, "Coins).IsEqual") {
+			// Coins.IsEqual panics when both lists have the same length and the denominations at some position differ
+			ex.trusted["sdk.Coins.IsEqual: lists of equal length handed to IsEqual have pairwise equal denominations (true when all fees are quoted in the base denomination, A15; with a second fee denomination WithdrawEarnedFees could panic here - D1b territory, not decided)"] = true
+		}
+		if strings.HasSuffix(display, "types.NewCoin") || strings.HasSuffix(display, "types.NewCoins") {
+			// NewCoin / NewCoins also panic on a denomination that is not a valid SDK denomination
+			ex.trusted["denominations: every denomination handed to sdk.NewCoin / sdk.NewCoins is a valid SDK denomination (BaseDenom by Params.Validate, A6; the denominations of stored coins because they were produced by NewCoin / ParseCoin) - the non-negative amount is an obligation, the denomination is assumed"] = true
+		}
 	}
 	for _, e := range c.Ensures {
 		if e.Assumed {
